@@ -84,11 +84,13 @@ def bounds(tier):
 def tasks(tier, seed):
     out = [{"fn": "layout", "kwargs": {"layout": [list(s) for s in lay]}, "label": f"layout={_lab(lay)}"} for lay in _layouts(tier)]
     out.append({"fn": "best_individuals", "kwargs": {}, "label": "report/best_individuals"})
+    for algo, solver in (ALGOS if tier == "thorough" else [ALGOS[0], ALGOS[2], ALGOS[3], ALGOS[4]]):
+        out.append({"fn": "evaluated_candidates", "kwargs": {"algo": algo, "solver": solver}, "label": f"evaluated/{algo}{'/' + solver if solver else ''}"})
     return out
 
 
 def REQUIRED_REACH(tier):
-    return ["C10/bounds/layout/*", "C10/convert/value/*", "C10/convert/in_box/*", "C10/convert/2d/*", "C10/update/slices/*", "C10/report/equals_applied/*"]
+    return ["C10/bounds/layout/*", "C10/convert/value/*", "C10/convert/in_box/*", "C10/convert/2d/*", "C10/update/slices/*", "C10/report/equals_applied/*", "C10/evaluated/ran", "C10/evaluated/in_box/*"]
 
 
 def _processor(nv):
@@ -277,8 +279,122 @@ def best_individuals():
     vx.prove(f"C10/report/best_individuals/ranking={order},n={n_best}", not problems, problems=str(problems)[:300])
 
 
+ALGOS = [("sade", None), ("sga", None), ("nlopt", "neldermead"), ("nlopt", "slsqp"), ("nlopt", "lbfgs"), ("nlopt", "bobyqa"), ("nlopt", "mma")]
+BOX = {"a": (2.0, 10.0), "b": (1.0, 1000.0)}
+
+
+def _evaluated(algo, solver, corner):
+    """Real Calibration with real pygmo (one island) on a two-parameter problem (a linear, b logarithmic) whose optimum lies on the
+    lower faces of the box; every value the pipeline is run with is recorded by the model itself.  Then every evaluation entry point
+    that the pygmo problem exposes (fitness, and gradient / hessians / batch_fitness when the class provides them) is called on the
+    corner of the box selected by `corner`.  Returns the list of recorded out-of-box values."""
+    import os
+    import sys
+    import tempfile
+    import warnings
+
+    import pygmo as pg
+
+    import pyxel
+    import pyxel.calibration.archipelago_datatree as _ad
+    import pyxel.calibration.calibration as calmod
+    from pyxel.calibration import Algorithm, Calibration
+    from pyxel.exposure import Readout
+    from pyxel.observation import ParameterValues
+    from pyxel.pipelines import DetectionPipeline, FitnessFunction, ModelFunction
+
+    warnings.filterwarnings("ignore")
+    seen = []
+
+    def hook(d, tag, kwargs, rec):
+        a, b = float(kwargs["a"]), float(kwargs["b"])
+        seen.append((a, b))
+        d.pixel.array = np.full((2, 2), a + b / 100.0)
+        d.signal.array = np.full((2, 2), a + b / 100.0)
+        d.image.array = np.full((2, 2), min(max(a + b / 100.0, 0.0), 60000.0)).astype("uint16")
+
+    problems_made = []
+    real_cls = calmod.ModelFittingDataTree
+
+    def recording_cls(*a, **k):
+        obj = real_cls(*a, **k)
+        problems_made.append(obj)
+        return obj
+
+    tmp = tempfile.mkdtemp(prefix="vx_c10_")
+    tfile = os.path.join(tmp, "t.npy")
+    np.save(tfile, np.zeros((2, 2)))
+    vxprobes.reset(hook)
+    real_tqdm = _ad.tqdm
+    _ad.tqdm = lambda *a, **k: real_tqdm(*a, **{**k, "disable": True})
+    calmod.ModelFittingDataTree = recording_cls
+    refused = None
+    sys.stdout.flush()
+    saved_fd = os.dup(1)  # pygmo's C++ optimisers log to the process's stdout
+    devnull = os.open(os.devnull, os.O_WRONLY)
+    os.dup2(devnull, 1)
+    try:
+        kw = {"type": algo, "generations": 2, "population_size": 8}
+        if solver:
+            kw.update(nlopt_solver=solver, maxeval=20)
+        cal = Calibration(target_data_path=[tfile], fitness_function=FitnessFunction(func="pyxel.calibration.fitness.sum_of_abs_residuals"),
+                          algorithm=Algorithm(**kw), num_islands=1, num_evolutions=1,
+                          parameters=[ParameterValues(key=KEY_A, values="_", boundaries=BOX["a"]), ParameterValues(key=KEY_B, values="_", boundaries=BOX["b"], logarithmic=True)],
+                          readout=Readout(), pygmo_seed=5, pipeline_seed=3, result_type="pixel")
+        pipe = DetectionPipeline(photon_collection=[ModelFunction(func="vxprobes.probe", name="probe", arguments={"a": 3.0, "b": 2.0})])
+        try:
+            res = pyxel.run_mode(mode=cal, detector=make_ccd(2, 2), pipeline=pipe)
+            if hasattr(res, "load"):
+                res.load()
+        except Exception as e:  # noqa: BLE001  (a solver that refuses the problem evaluates nothing out of the box)
+            refused = f"{type(e).__name__}: {str(e)[:80]}"
+        n_run = len(seen)
+        entry = []
+        if problems_made:
+            prob = pg.problem(problems_made[-1])
+            lo, hi = prob.get_bounds()
+            x = np.array([hi[i] if (corner >> i) & 1 else lo[i] for i in range(len(lo))], dtype=float)
+            prob.fitness(x)
+            entry.append("fitness")
+            for name, has in (("gradient", prob.has_gradient), ("hessians", prob.has_hessians), ("batch_fitness", prob.has_batch_fitness)):
+                if has():
+                    getattr(prob, name)(x)
+                    entry.append(name)
+    finally:
+        os.dup2(saved_fd, 1)
+        os.close(saved_fd)
+        os.close(devnull)
+        calmod.ModelFittingDataTree = real_cls
+        _ad.tqdm = real_tqdm
+        vxprobes.reset(None)
+        try:
+            os.remove(tfile)
+            os.rmdir(tmp)
+        except OSError:
+            pass
+    tol = 1e-9
+    out = [(a, b) for a, b in seen if not (BOX["a"][0] - tol <= a <= BOX["a"][1] + tol and BOX["b"][0] * (1 - tol) <= b <= BOX["b"][1] * (1 + tol))]
+    return {"evaluations": len(seen), "during_run": n_run, "entry_points": entry, "refused": refused, "out_of_box": out[:6], "n_out": len(out)}
+
+
+def evaluated_candidates(algo, solver):
+    """Every candidate that reaches the pipeline lies in the declared box: over the algorithm family (including the gradient-based
+    NLopt solvers, which ask the problem for derivatives) and over the corner of the box the entry points are called at."""
+    c = vx.integer("corner")
+    vx.assume((c >= 0) & (c <= 3), "one of the four corners of the two-parameter box")
+    corner = vx.concretize_int(c)
+    r = _evaluated(algo, solver, corner)
+    lab = f"{algo}{'/' + solver if solver else ''},corner={corner}"
+    if r["evaluations"] > 0:
+        vx.reach("C10/evaluated/ran")
+    vx.prove(f"C10/evaluated/in_box/{lab}", r["n_out"] == 0, out_of_box=str(r["out_of_box"])[:200], entry_points=",".join(r["entry_points"]), refused=str(r["refused"]))
+
+
 def replay(oid, kwargs, model, data):
     """Concrete re-run with real numpy."""
+    if oid.startswith("C10/evaluated/"):
+        r = _evaluated(kwargs["algo"], kwargs["solver"], int(model.get("corner", 0)))
+        return r["n_out"] > 0, r
     from pyxel.calibration.fitting_datatree import ModelFittingDataTree
 
     if data["fn"] == "best_individuals":
